@@ -35,7 +35,10 @@ type combo struct {
 	// an error until the tool has given the run up); the tool's own retry loop reconnects (no position, snapshot cached)
 	// — judged as a first connection
 	LoopCut bool
-	Idle    bool // the source produces nothing after the reconnect (the tool is stopped in the idle period)
+	// Refuse: the source answers the first 1-3 PSYNCs of the judged reconnect with -NOMASTERLINK / -LOADING (keeping the
+	// connection open) and serves normally afterwards
+	Refuse bool
+	Idle   bool // the source produces nothing after the reconnect (the tool is stopped in the idle period)
 }
 
 func (c combo) Label() string {
@@ -51,6 +54,9 @@ func (c combo) Label() string {
 	}
 	if c.LoopCut {
 		l += "|loopcut"
+	}
+	if c.Refuse {
+		l += "|refuse"
 	}
 	if c.Base != "" {
 		l += "|base=" + c.Base
@@ -82,6 +88,15 @@ func enumerate() []combo {
 					out = append(out, combo{Src: src, Cache: "natural", Pid: "id1", Prel: "at-right", Backend: be, Restart: rs, TFault: "setrunid"})
 				}
 			}
+			// the source refuses the first PSYNCs of the reconnect for a while
+			for _, rs := range []string{"restart", "inloop"} {
+				out = append(out, combo{Src: src, Cache: "natural", Pid: "id1", Prel: "at-right", Backend: be, Restart: rs, Refuse: true})
+			}
+			out = append(out, combo{Src: src, Cache: "empty", Pid: "id1", Prel: "na", Backend: be, Restart: "restart", Refuse: true})
+			out = append(out, combo{Src: src, Cache: "natural", Pid: "id1", Prel: "inside", Backend: be, Restart: "restart", Refuse: true})
+			out = append(out, combo{Src: src, Cache: "log-only", Pid: "id1", Prel: "beyond-right", Backend: be, Restart: "restart", Refuse: true})
+			out = append(out, combo{Src: src, Cache: "natural", Pid: "nofields", Prel: "na", Backend: be, Restart: "restart", Refuse: true})
+			out = append(out, combo{Src: src, Cache: "empty", Pid: "absent", Prel: "na", Backend: be, Restart: "restart", Refuse: true})
 			if strings.HasPrefix(src, "failover") {
 				for _, ca := range []string{"empty", "natural"} {
 					pr := "na"
@@ -179,9 +194,11 @@ type plan struct {
 	Cache cacheSpec
 
 	PTxn        float64
-	TFaultK     int   // setrunid: the first failing write of the run-id bookkeeping (1-based)
-	TFaultN     int   // setrunid: number of bookkeeping attempts that fail before the target recovers
-	DropAfter   int64 // >0: the source cuts the first replica connection of the reconnect after that many payload bytes
+	RefuseN     int    // number of PSYNCs the source refuses first
+	RefuseLine  string // the error reply
+	TFaultK     int    // setrunid: the first failing write of the run-id bookkeeping (1-based)
+	TFaultN     int    // setrunid: number of bookkeeping attempts that fail before the target recovers
+	DropAfter   int64  // >0: the source cuts the first replica connection of the reconnect after that many payload bytes
 	Constructed []string
 	Behind      bool // failover: the new master has produced less than the stored position when the tool reconnects
 	Aligned     bool // failover: a command boundary of the new history falls on the stored position's number
@@ -549,6 +566,10 @@ func buildPlan(r *rand.Rand, c combo) (*plan, error) {
 
 	if c.Restart == "inloop" {
 		p.Constructed = nil
+	}
+	if c.Refuse {
+		p.RefuseN = 1 + r.Intn(3)
+		p.RefuseLine = []string{"NOMASTERLINK Can't SYNC while not connected with my master", "LOADING Redis is loading the dataset in memory"}[r.Intn(2)]
 	}
 	if c.TFault == "setrunid" {
 		p.TFaultK, p.TFaultN = 1+r.Intn(4), 1+r.Intn(2)
